@@ -51,8 +51,15 @@ func runC08(op string, in []string) string {
 				return "nil"
 			}
 			return gs(out)
-		case "layer": // <box> <L> (<k> <gval>^k)^L : (*mvt.Layer).Clip (one layer) / mvt.Layers.Clip (several)
+		case "reach": // <n>: the generator's reach self-test (clipreach.go), judged by the driver
+			return in[0]
+		case "layer": // <box> [E<Extent>v<Version>] <L> (<k> <gval>^k)^L : (*mvt.Layer).Clip (one layer) / mvt.Layers.Clip (several)
 			box := rdBound(r)
+			extent, version := 4096, 2
+			if r.i < len(r.t) && strings.HasPrefix(r.t[r.i], "E") { // the receiver's other fields are part of the case
+				ev := strings.SplitN(r.next()[1:], "v", 2)
+				extent, version = pi(ev[0]), pi(ev[1])
+			}
 			layers := make(mvt.Layers, r.int())
 			origs := make([][]*geojson.Feature, len(layers))
 			id := 0
@@ -64,7 +71,7 @@ func runC08(op string, in []string) string {
 					id++
 				}
 				origs[i] = fs
-				layers[i] = &mvt.Layer{Name: "l" + strconv.Itoa(i), Version: 2, Extent: 4096, Features: fs}
+				layers[i] = &mvt.Layer{Name: "l" + strconv.Itoa(i), Version: uint32(version), Extent: uint32(extent), Features: fs}
 			}
 			if len(layers) == 1 {
 				layers[0].Clip(box)
@@ -571,9 +578,249 @@ func genC08Near(c *Ctx) {
 	}
 }
 
+// c08Extents: the Extent of the receiver of (*mvt.Layer).Clip (0: a layer that was never projected / built by hand).
+var c08Extents = []int{0, 1, 2, 4, 256, 4096}
+
+// genC08Extent: (*mvt.Layer).Clip / Layers.Clip with the receiver's Extent (and Version) as part of the case
+// (token `E<Extent>v<Version>` after the box), on boxes placed relative to the tile square [0, Extent]^2 — equal to it, covering it (by a
+// sixteenth, a half, a whole extent: mvt.MapboxGLDefaultExtentBound for 4096; by one unit), straddling it,
+// inside it, beside it — with features (points, multi points, lines, rectangles, triangles, collections)
+// whose vertices lie inside, outside and across the BOX, at tile-coordinate magnitudes (integer and
+// general position).  Clipping must not depend on the Extent: a box that covers the tile still cuts the
+// features of a buffered tile.
+func genC08Extent(c *Ctx, n int) {
+	r := c.Rng
+	for k := 0; k < n; k++ {
+		ext := c08Extents[r.Intn(len(c08Extents))]
+		e := float64(ext)
+		if ext == 0 {
+			e = []float64{1, 4, 4096}[r.Intn(3)]
+		}
+		var x0, y0, x1, y1 float64
+		switch r.Intn(9) {
+		case 0: // the tile square itself
+			x0, y0, x1, y1 = 0, 0, e, e
+		case 1: // the buffered tile of mapbox-gl
+			if ext == 4096 || r.Intn(3) == 0 {
+				b := mvt.MapboxGLDefaultExtentBound
+				x0, y0, x1, y1 = b.Min[0], b.Min[1], b.Max[0], b.Max[1]
+			} else {
+				x0, y0, x1, y1 = -e, -e, 2*e-1, 2*e-1
+				if x1 <= x0 {
+					x1, y1 = 2*e, 2*e
+				}
+			}
+		case 2: // covers the tile by a buffer
+			m := e * []float64{0.0625, 0.5, 1, 3}[r.Intn(4)]
+			x0, y0, x1, y1 = -m, -m, e+m, e+m
+		case 3: // covers the tile by one unit / by a general-position margin, per side
+			mg := func() float64 {
+				if r.Intn(2) == 0 {
+					return float64(r.Intn(2))
+				}
+				return r.Float64() * e / 8
+			}
+			x0, y0, x1, y1 = -mg(), -mg(), e+mg(), e+mg()
+		case 4: // straddles the tile: contains one of its corners only
+			x0, y0, x1, y1 = e/4, e/4, e*1.5, e*1.5
+			if r.Intn(2) == 0 {
+				x0, y0, x1, y1 = -e/2, -e/2, e/2, e/2
+			}
+			if r.Intn(2) == 0 {
+				y0, y1 = -e/8, e+e/8
+			}
+		case 5: // inside the tile
+			x0, y0 = e*float64(r.Intn(3))/8, e*float64(r.Intn(3))/8
+			x1, y1 = x0+e*float64(1+r.Intn(4))/8, y0+e*float64(1+r.Intn(4))/8
+		case 6: // beside the tile
+			x0, y0, x1, y1 = e+e/4, 0, 2*e+e/4, e
+		case 7: // general position around the tile
+			x0, y0 = -r.Float64()*e, -r.Float64()*e
+			x1, y1 = e+(r.Float64()-0.3)*e, e+(r.Float64()-0.3)*e
+			if !(x0 < x1 && y0 < y1) {
+				x1, y1 = x0+e, y0+e
+			}
+		default: // the small boxes of the main loop: with Extent 1, 2, 4 they cover the tile
+			x0, y0 = float64(r.Intn(4))-2, float64(r.Intn(4))-2
+			x1, y1 = x0+float64(1+r.Intn(5)), y0+float64(1+r.Intn(5))
+		}
+		w, h := x1-x0, y1-y0
+		integer := r.Intn(2) == 0
+		coord := func(lo, wd float64) float64 {
+			var v float64
+			switch r.Intn(10) {
+			case 0:
+				v = lo
+			case 1:
+				v = lo + wd
+			case 2, 3: // beyond the low side
+				v = lo - (0.01+r.Float64()*1.5)*wd
+			case 4, 5: // beyond the high side
+				v = lo + wd + (0.01+r.Float64()*1.5)*wd
+			case 6:
+				return clipNearCoord(r, lo, lo+wd, false)
+			default:
+				v = lo + r.Float64()*wd
+			}
+			if integer {
+				v = math.Round(v)
+			}
+			return v
+		}
+		pt := func() orb.Point { return orb.Point{coord(x0, w), coord(y0, h)} }
+		// a point certainly outside the box / certainly inside it
+		outPt := func() orb.Point {
+			p := pt()
+			if r.Intn(2) == 0 {
+				p[0] = x1 + (0.1+r.Float64())*w
+			} else {
+				p[1] = y0 - (0.1+r.Float64())*h
+			}
+			return p
+		}
+		inPt := func() orb.Point { return orb.Point{x0 + (0.1+0.8*r.Float64())*w, y0 + (0.1+0.8*r.Float64())*h} }
+		rect := func(a, b orb.Point) orb.Ring {
+			if a[0] == b[0] {
+				b[0] += w / 4
+			}
+			if a[1] == b[1] {
+				b[1] += h / 4
+			}
+			return orb.Ring{a, {b[0], a[1]}, b, {a[0], b[1]}, a}
+		}
+		var feat func(depth int) orb.Geometry
+		feat = func(depth int) orb.Geometry {
+			switch r.Intn(12) {
+			case 0:
+				return pt()
+			case 1:
+				return outPt()
+			case 2:
+				return orb.MultiPoint{pt(), outPt(), pt()}
+			case 3:
+				return orb.LineString{pt(), pt(), pt()}
+			case 4: // a line wholly outside, beyond one side
+				a, b := outPt(), outPt()
+				a[0], b[0] = x1+0.2*w, x1+0.9*w
+				return orb.LineString{a, b}
+			case 5: // across
+				return orb.LineString{inPt(), outPt()}
+			case 6: // a rectangle wholly outside the box
+				a := orb.Point{x1 + (0.05+r.Float64())*w, coord(y0, h)}
+				return orb.Polygon{rect(a, orb.Point{a[0] + (0.1+r.Float64())*w, a[1] + (0.1+r.Float64())*h})}
+			case 7: // a rectangle across the boundary
+				return orb.Polygon{rect(inPt(), outPt())}
+			case 8: // inside
+				return orb.Polygon{rect(inPt(), inPt())}
+			case 9:
+				a, b, cc := pt(), pt(), pt()
+				return orb.Ring{a, b, cc, a}
+			case 10:
+				return orb.MultiLineString{{pt(), pt()}, {outPt(), inPt(), outPt()}}
+			default:
+				if depth > 0 {
+					return inPt()
+				}
+				return orb.Collection{feat(1), feat(1)}
+			}
+		}
+		nl := 1 + r.Intn(2)
+		parts := []string{fb(x0), fb(y0), fb(x1), fb(y1), fmt.Sprintf("E%dv%d", ext, 1+r.Intn(2)), strconv.Itoa(nl)}
+		for i := 0; i < nl; i++ {
+			nf := 1 + r.Intn(5)
+			parts = append(parts, strconv.Itoa(nf))
+			for j := 0; j < nf; j++ {
+				if r.Intn(16) == 0 {
+					parts = append(parts, "nil")
+				} else {
+					parts = append(parts, gs(feat(0)))
+				}
+			}
+		}
+		c.Case("layer", strings.Join(parts, " "))
+	}
+}
+
+// c08CornerDraws: segments drawn per shard by genC08Corner (the clamp arm of clip.line is taken by about one in a
+// thousand of them: see clipreach.go).
+const c08CornerDraws = 25000
+
+// genC08Corner: the corner-shot family.  A general-position box, a segment from a point inside the box (or
+// beside it) aimed exactly at a corner and continued beyond it, the far end computed in float64: the exact
+// line misses the corner by rounding only, which is what makes clip.line clip the leaving end twice (against
+// the horizontal and the vertical line) and, when it is still a hair outside, snap it with clampToBound.
+// c08CornerDraws segments are drawn per shard; those on which a replica of the loop (clipReachClamp) takes
+// the clamp arm, and one in sixty of the others, become cases: as a line string (both directions, alone,
+// with more vertices, in a multi line string, in a collection), as an mvt feature, and as a ring edge
+// (clip.Ring, polygon).  Every reaching case is followed by a `reach 1` line (tag `reach-clamp`); a shard
+// that reaches the arm on no case at all emits `reach 0`, which the driver answers `bad reach-gate`.
+func genC08Corner(c *Ctx) {
+	r := c.Rng
+	reached := 0
+	for k := 0; k < c08CornerDraws; k++ {
+		var box orb.Bound
+		switch r.Intn(4) {
+		case 0: // around the origin
+			box = orb.Bound{Min: orb.Point{-1 - r.Float64()*2, -1 - r.Float64()*2}, Max: orb.Point{1 + r.Float64()*2, 1 + r.Float64()*2}}
+		case 1: // tile-coordinate magnitudes
+			x0, y0 := (r.Float64()*2-1)*4096, (r.Float64()*2-1)*4096
+			box = orb.Bound{Min: orb.Point{x0, y0}, Max: orb.Point{x0 + 1 + r.Float64()*4096, y0 + 1 + r.Float64()*4096}}
+		default:
+			x0, y0 := r.Float64()*3, r.Float64()*3
+			box = orb.Bound{Min: orb.Point{x0, y0}, Max: orb.Point{x0 + 0.5 + r.Float64()*3, y0 + 0.5 + r.Float64()*3}}
+		}
+		start, far, corner := clipCornerShot(r, box, r.Intn(3) != 0)
+		a, b := clipReachClamp(box, []orb.Point{start, far}, false)
+		a2, b2 := clipReachClamp(box, []orb.Point{far, start}, false)
+		hit := a+b+a2+b2 > 0
+		if !hit && k%60 != 0 {
+			continue
+		}
+		bt := fmt.Sprintf("%s %s %s %s", fb(box.Min[0]), fb(box.Min[1]), fb(box.Max[0]), fb(box.Max[1]))
+		w, h := box.Max[0]-box.Min[0], box.Max[1]-box.Min[1]
+		in2 := orb.Point{box.Min[0] + (0.1+0.8*r.Float64())*w, box.Min[1] + (0.1+0.8*r.Float64())*h}
+		// a third vertex beside the box, on the far side of one axis as seen from the corner
+		third := orb.Point{2*corner[0] - start[0] + (r.Float64()-0.5)*w, start[1] + (r.Float64()-0.5)*h}
+		if r.Intn(2) == 0 {
+			third = orb.Point{start[0] + (r.Float64()-0.5)*w, 2*corner[1] - start[1] + (r.Float64()-0.5)*h}
+		}
+		ls := orb.LineString{start, far}
+		rev := orb.LineString{far, start}
+		gsv := []orb.Geometry{
+			ls, rev,
+			orb.LineString{in2, start, far, third, in2},
+			orb.LineString{third, far, start, in2},
+			orb.MultiLineString{ls, {in2, third}, rev},
+			orb.Collection{far, ls, orb.MultiLineString{rev}},
+			orb.Polygon{{start, far, third, start}},
+		}
+		feats := make([]string, len(gsv))
+		for i, g := range gsv {
+			c.Case("geom", bt+" "+gs(g))
+			feats[i] = gs(g)
+		}
+		qs := make([]orb.Point, 8)
+		for i := range qs {
+			qs[i] = orb.Point{box.Min[0] + w*r.Float64(), box.Min[1] + h*r.Float64()}
+		}
+		c.Case("ring", bt+" "+spts([]orb.Point{start, far, third, start})+" "+spts(qs))
+		c.Case("ring", bt+" "+spts([]orb.Point{third, far, start, third})+" "+spts(qs))
+		c.Case("layer", fmt.Sprintf("%s E%dv%d 1 %d %s", bt, c08Extents[r.Intn(len(c08Extents))], 1+r.Intn(2), len(feats), strings.Join(feats, " ")))
+		if hit {
+			reached++
+			c.Case("reach", "1")
+		}
+	}
+	if reached == 0 {
+		c.Case("reach", "0")
+	}
+}
+
 func genC08(c *Ctx) {
 	r := c.Rng
 	genC08Near(c)
+	genC08Corner(c)
+	genC08Extent(c, 200+c.Budget/8)
 	if c.Mine(0) {
 		for _, s := range c08Fixed {
 			op, in := fixedLine(s)
@@ -652,6 +899,9 @@ func genC08(c *Ctx) {
 		if k%3 == 0 {
 			nl := 1 + r.Intn(2)
 			parts := []string{box, strconv.Itoa(nl)}
+			if r.Intn(2) == 0 { // the receiver's Extent / Version as part of the case: with 1, 2, 4 the box covers the tile
+				parts = []string{box, fmt.Sprintf("E%dv%d", c08Extents[r.Intn(len(c08Extents))], 1+r.Intn(2)), strconv.Itoa(nl)}
+			}
 			for i := 0; i < nl; i++ {
 				nf := size(r, 5)
 				parts = append(parts, strconv.Itoa(nf))
